@@ -26,8 +26,8 @@ from harness import common
 from harness.common import Failure, lean_run
 
 PROP_MODULES = ["ArmiVerif.Props.C16"]
-PARTIAL = ("definition-level `assigned` flags and their back-up chain are modelled and tied by correspondence, the theorems "
-           "are about object slices (values, collection assigned, caches, grid, back-up chains); "
+PARTIAL = ("definition-level flags: back-up chains proved balanced (defs_lifo) and non-kept flags proved restored "
+           "(def_assigned_restored); the value of a KEPT definition's flag after a scope is tied by correspondence only; "
            "values are equality codes: what pickle/deepcopy do to a leaf value is a parameter of the model (checked "
            "on the implementation: value canonical forms before/after); custom parameter setters and the API-level "
            "mutators (setNumberDensity, setTemperature, ...) are covered by the implementation-side oracle, the model "
@@ -790,7 +790,7 @@ def excluded_points(ctx):
 def run(ctx):
     batch = {"req": [], "impl": [], "cases": [], "mask_serial": set(), "serial_sets": {}}
     fixture()
-    nses = ctx.pick(14, 100)
+    nses = ctx.pick(14, 300)
     for _ in range(nses):
         run_session(ctx, ctx.rng.randrange(1 << 40), batch, ctx.rng.randint(1, ctx.pick(5, 6)))
     for _ in range(ctx.pick(15, 200)):
